@@ -103,7 +103,7 @@ def gen_case(rng, i):
         api = "register_targets+fit()"
     s.update({"B": B, "classes": cls, "W": W, "wkind": wk, "api": api,
               "setting": ["default", "default", "clarabel-tight", "osqp-tight"][rng.integers(4)],
-              "rank1": bool(N == 1 and rng.integers(2))})
+              "rank1": bool(N == 1 and rng.integers(2)), "prior_targets": bool(rng.integers(2))})
     return s
 
 
@@ -121,6 +121,11 @@ def _run(c, inp, B, W, kw):
                      _where="ReceptorEstimator+register_system")
     if api == "fit(B)":
         return c.call(est.fit, B.copy(), _where="ReceptorEstimator.fit(B)", **kw)
+    if inp.get("prior_targets") and np.ndim(B) == 2:
+        # other targets with per-sample weights were registered before: registering targets replaces both (W=None -> w)
+        c.cell("prior-targets-with-weights")
+        Bo = B[::-1] * 1.1 + 0.3
+        c.call(est.register_targets, Bo, W=np.linspace(0.3, 3.0, Bo.size).reshape(Bo.shape), _where="register_targets (earlier)")
     c.call(est.register_targets, B.copy(), W=(W.copy() if (W is not None and W.ndim == 2) else None),
            _where="register_targets")
     r = c.call(est.fit, _where="ReceptorEstimator.fit()", **kw)
